@@ -12,7 +12,7 @@ EV == Name("e")
 KC == Attr(Name("K"), "C")
 KD == Attr(Attr(Name("K"), "Inner"), "D")
 AM == Attr(Name("aux"), "M")
-Shapes == {"S1", "S2", "S3", "S4", "S5", "S6", "S7", "S9", "S10", "S11", "S12", "S13", "S14"}
+Shapes == {"S1", "S2", "S3", "S4", "S5", "S6", "S7", "S9", "S10", "S11", "S12", "S13", "S14", "S15", "S16"}
 ShapeTerm(sh) ==
     CASE sh = "S1"  -> Lam1("e", Meth(EV, "f", <<Name("v")>>))
       [] sh = "S2"  -> Lam1("e", Meth(EV, "f", <<Name("G")>>))
@@ -27,6 +27,13 @@ ShapeTerm(sh) ==
       \* own parameter named like a global, re-used by a nested lambda / comprehension, then used again
       [] sh = "S13" -> Lam1("G", Tup(<<Meth(Attr(Name("G"), "jets"), "Select", <<Lam1("G", Attr(Name("G"), "pt"))>>),
                                       BinOp("+", Name("G"), Name("v"))>>))
+      \* captured names used only two lambdas deep
+      [] sh = "S15" -> Lam1("e", Meth(Attr(EV, "jets"), "Select",
+                            <<Lam1("j", Meth(Attr(Name("j"), "trks"), "Where",
+                                            <<Lam1("t", Cmp(">", Attr(Name("t"), "pt"), Name("G")))>>))>>))
+      [] sh = "S16" -> Lam1("e", Meth(Attr(EV, "jets"), "Select",
+                            <<Lam1("j", Meth(Attr(Name("j"), "trks"), "Select",
+                                            <<Lam1("t", BinOp("+", BinOp("+", Attr(Name("t"), "pt"), Name("v")), KC))>>))>>))
       [] sh = "S14" -> Lam1("G", Tup(<<Comp("list", "G", Attr(Name("G"), "pt"), Attr(Name("G"), "jets"), <<>>),
                                       Name("G")>>))
       [] OTHER      -> Lam1("e", Comp("list", "j", BinOp("+", Attr(Name("j"), "pt"), Name("G")), Attr(EV, "jets"),
